@@ -25,7 +25,8 @@ S = Suite(
     bound="grids 5..16 x 5..12 cells (odd/even, dx != dy), halo in {0, commensurate, "
           "incommensurate, None}, modes full / truncated / clamped, MOST / MOSTM / CONSTANT "
           "closures and a formula profile, scalar and list levels, numerical and analytic mode, "
-          "random / sparse / smooth / sign-changing / zero sources, seeded random coefficients "
+          "random / sparse / smooth / sign-changing / zero / exactly-zero-mean (dipole, "
+          "balanced integers) sources, seeded random coefficients "
           "in [-3, 3] incl. negative and zero, backgrounds in [-2, 5], meas_pt on/off grid",
     rule="superposition to 1e-9 * max(1, e^(G-8)) of (|a| max|out1| + |b| max|out2|), G = "
          "shooting growth max sum Re(lambda)dz (rounding of the numerical mode); background offset to 1e-9 "
@@ -98,6 +99,17 @@ def make_source(kind, ny, nx, rng):
         return 0.1 + np.exp(-((x - cx) ** 2 / (0.1 * nx ** 2 + 1) + (y - cy) ** 2 / (0.1 * ny ** 2 + 1)))
     if kind == "zero":
         return np.zeros((ny, nx))
+    # sign-changing sources WITHOUT net emission: the horizontal mean (the (0,0) Fourier
+    # coefficient) is exactly 0.0 - small integers, so every partial sum is exact
+    if kind == "dipole":
+        q = np.zeros((ny, nx))
+        j, i = int(rng.integers(ny)), int(rng.integers(nx - 1))
+        q[j, i], q[j, i + 1] = 1.0, -1.0
+        return q
+    if kind == "balanced":
+        q = rng.integers(-3, 4, (ny, nx)).astype(float)
+        q[0, 0] -= q.sum()
+        return q
     if kind == "huge":
         return 1e6 * rng.standard_normal((ny, nx))
     raise ValueError(kind)
@@ -269,6 +281,7 @@ GRIDS = [(16, 12, 160.0, 90.0, 20.0),      # dx=10, dy=7.5: incommensurate in y
          (7, 9, 28.0, 36.0, 8.0),          # odd, commensurate
          (10, 6, 200.0, 90.0, 45.0)]       # dx=20, dy=15: 2 and 3 cells
 SRC = ["random", "signed", "sparse", "smooth", "negative", "huge"]
+ZERO_MEAN = ["dipole", "zero", "balanced"]
 
 
 def _top(p):
@@ -342,6 +355,15 @@ def generate(tier, rng):
                     yield "footprint_values", dict(
                         base, src1=SRC[c % 6], src2=("zero", "negative", "huge")[c % 3],
                         bg=(0.0, 1.25)[c % 2], seed=rng.randrange(10 ** 6))
+                    # no net emission (mean mode exactly zero) with a background, all levels
+                    zs = ZERO_MEAN[c % 3]
+                    yield "background", dict(
+                        base, footprint=False, src=zs, bg=(2.5, -1.25)[c % 2],
+                        seed=rng.randrange(10 ** 6))
+                    yield "superposition", dict(
+                        base, footprint=False, src1=SRC[(c + 1) % 6], src2=ZERO_MEAN[(c + 1) % 3],
+                        a=(1.0, _coef(rng))[c % 2], b=(1.0, _coef(rng))[c % 2], c1=0.0,
+                        c2=round(rng.uniform(0.5, 5), 3), seed=rng.randrange(10 ** 6))
                     if thorough or c % 3 == 0:
                         yield "superposition", dict(
                             base, footprint=True, src1=SRC[(c + 3) % 6], src2=SRC[(c + 4) % 6],
@@ -374,7 +396,7 @@ def generate(tier, rng):
                     seed=rng.randrange(10 ** 6))
             elif k == 1:
                 yield "background", dict(
-                    base, footprint=rng.random() < 0.5, src=rng.choice(SRC),
+                    base, footprint=rng.random() < 0.5, src=rng.choice(SRC + ZERO_MEAN),
                     bg=round(rng.uniform(-2, 5), 3), seed=rng.randrange(10 ** 6))
             else:
                 yield "footprint_values", dict(
